@@ -247,6 +247,11 @@ def binop(ex, st, op, a, b, node):
     # sequences / strings / lists first
     if isinstance(op, ast.Add) and isinstance(a, PyList) and isinstance(b, PyList):
         return _out(PyList(a.items + b.items), st)
+    if isinstance(op, ast.Add) and ty.is_z3(a) and a.sort() == ty.IdSort and isinstance(b, str):
+        return _out(id_concat(ex, st, a, b, node), st)
+    if isinstance(op, ast.Add) and isinstance(a, ty.OptV) and ty.is_z3(a.val) and a.val.sort() == ty.IdSort and isinstance(b, str):
+        ex.safety(st, "none-in-string-concatenation", z3.Not(a.isnone), node)
+        return _out(id_concat(ex, st, a.val, b, node), st)
     if isinstance(op, ast.Add) and isinstance(a, (str, ty.OpaqueV)) and isinstance(b, (str, ty.OpaqueV)):
         if isinstance(a, str) and isinstance(b, str):
             return _out(a + b, st)
@@ -268,6 +273,9 @@ def binop(ex, st, op, a, b, node):
             return _out(r, st)
     if isinstance(a, (ty.SeqV, ty.MatV)) or isinstance(b, (ty.SeqV, ty.MatV)):
         return _out(array_binop(ex, st, op, a, b, node), st)
+    from . import timelib
+    if isinstance(a, timelib.TimedeltaV) or isinstance(b, timelib.TimedeltaV):
+        return _out(timelib.binop(ex, st, op, a, b, node), st)
     from .symex import ObjV_binop
     r = ObjV_binop(ex, st, op, a, b, node)
     if r is not None:
@@ -487,10 +495,17 @@ def contains(ex, st, cont, x, node):
         return cont.has(ex.coerce(cont.key, x, node))
     if isinstance(cont, ty.SeqV):
         return seq_contains(ex, st, cont, x, node)
+    from . import pdlib
+    if isinstance(cont, pdlib.FrameV):
+        return z3.Select(cont.hascol, ex.coerce(ty.Id, x, node))
+    if isinstance(cont, ty.OptV):
+        return z3.And(z3.Not(cont.isnone), ty.to_bool(contains(ex, st, cont.val, x, node)))
     raise _U(f"`in` on {cont!r}", node)
 
 
 def seq_contains(ex, st, seq, x, node):
+    if isinstance(x, ty.OptV) and not isinstance(seq.elem, ty.OptT):
+        return z3.And(z3.Not(x.isnone), seq_contains(ex, st, seq, x.val, node))
     xs = ty.pack(seq.elem, ex.to_storable(x))
     i = z3.Int(ty.fresh_name("mi"))
     return z3.Exists([i], z3.And(i >= 0, i < seq.len, *[z3.Select(a, i) == c for a, c in zip(seq.arrs, xs)]))
@@ -509,6 +524,16 @@ def as_seq(ex, st, v, node):
     if isinstance(v, ty.MatV):
         from . import cplx
         return cplx.mat_rows_seq(v)
+    from . import pdlib
+    if isinstance(v, pdlib.FrameV):
+        return v.cols
+    if isinstance(v, pdlib.SeriesV) or pdlib.is_series(ex, v):
+        # iterating a Series yields its values
+        m = pdlib.series_map(ex, st, v, node)
+        from . import maplib
+        if m.keys is None:
+            m = ty.MapV(m.key, m.val, m.dom, m.arrs, pdlib.enumerate_domain(ex, st, m.dom))
+        return maplib.values_seq(m)
     raise _U(f"iteration over {v!r}", node)
 
 
@@ -689,6 +714,11 @@ def seq_remove_value(ex, st, seq: ty.SeqV, c):
 # ============================================================================ attributes of non-object values
 def value_attr(ex, st, v, attr, node):
     from .symex import Intrinsic
+    from . import pdlib
+    if isinstance(v, (pdlib.FrameV, pdlib.ToFrameV)):
+        r = pdlib.frame_attr(ex, st, v, attr, node)
+        if r is not None:
+            return r
     meths = VALUE_METHODS.get(type(v).__name__, {})
     if attr in meths:
         return _out(Intrinsic(f"{type(v).__name__}.{attr}", meths[attr], recv=v), st)
@@ -712,15 +742,48 @@ def value_attr(ex, st, v, attr, node):
         return _out(v, st)
     if isinstance(v, ty.SeqV) and attr == "shape":
         return _out((v.len,), st)
+    if isinstance(v, str) and attr == "format":
+        return _out(Intrinsic("str.format", str_format, recv=v), st)
     if isinstance(v, (str, ty.OpaqueV)) and attr in ("format", "join", "split"):
         return _out(Intrinsic("str." + attr, lambda ex_, st_, recv, a, k, n: _out(ty.OpaqueV("str"), st_), recv=v), st)
     raise _U(f"attribute .{attr} of {v!r}", node)
+
+
+_FMT = {}
+
+
+def str_format(ex, st, recv, args, kwargs, node):
+    """"<template>".format(n) with one integer argument: an identifier that is an injective function of n (one function per template);
+    any other use yields an opaque string"""
+    if len(args) == 1 and not kwargs and (isinstance(args[0], int) or (ty.is_z3(args[0]) and z3.is_int(args[0]))):
+        f = _FMT.setdefault(recv, z3.Function(f"fmt[{recv}]", z3.IntSort(), ty.IdSort))
+        return _out(f(ty.to_z3num(args[0])), st)
+    return _out(ty.OpaqueV("str"), st)
+
+
+_SUFFIX = {}
+
+
+def id_concat(ex, st, a, b, node):
+    """identifier + "literal suffix": an identifier that is a function of the prefix (one uninterpreted function per suffix)"""
+    f = _SUFFIX.setdefault(b, z3.Function(f"suffix[{b}]", ty.IdSort, ty.IdSort))
+    return f(a)
 
 
 def obj_attr(ex, st, obj, attr, node):
     """Attributes of library objects that are modelled as schema objects (A-LIB):
     datetime: `.timestamp()` is the real number stored in the ghost field `theta` (seconds since the epoch)."""
     from .symex import Intrinsic
+    if obj.cls == "Current" or ex.ix.is_subclass(obj.cls, "Current"):
+        from . import pdlib
+        r = pdlib.current_attr(ex, st, obj, attr, node)
+        if r is not None:
+            return r
+    if obj.cls == "datetime":
+        from . import timelib
+        r = timelib.datetime_attr(ex, st, obj, attr, node)
+        if r is not None:
+            return r
     if obj.cls == "datetime" and attr == "timestamp":
         return _out(Intrinsic("datetime.timestamp", lambda ex_, st_, recv, a, k, n: _out(ex_.read_field(st_, recv, "theta", n), st_), recv=obj), st)
     return None
@@ -728,6 +791,11 @@ def obj_attr(ex, st, obj, attr, node):
 
 def module_attr(ex, full, node):
     from .symex import Intrinsic
+    if full == "pandas.Series":
+        return PyTypeV("Series")
+    if full == "pandas.__version__":
+        import pandas            # the version of the library this check runs against (the code branches on it)
+        return pandas.__version__
     if full in MODULE_FUNCS:
         return Intrinsic(full, MODULE_FUNCS[full])
     if full in MODULE_CONSTS:
@@ -777,6 +845,9 @@ def b_len(ex, st, args, kwargs, node):
         return _out(v.rows, st)
     if isinstance(v, SymSet):
         return _out(symset_card(ex, st, v, node), st)
+    from . import pdlib
+    if isinstance(v, pdlib.FrameV):
+        return _out(v.index.len, st)
     if isinstance(v, ty.ObjV):
         m = ex.ix.lookup_method(v.cls, "__len__")
         if m is not None:
@@ -883,6 +954,8 @@ def b_isinstance(ex, st, args, kwargs, node):
             names.append(k.name)
         elif isinstance(k, PyTypeV):
             names.append(k.name)
+        elif k.__class__.__name__ == "Intrinsic" and k.name in ("dict", "str", "list", "int", "float", "tuple", "bool", "set"):
+            names.append(k.name)
         else:
             raise _U(f"isinstance against {k!r}", node)
     r = False
@@ -897,6 +970,9 @@ class PyTypeV:
 
 
 def _isinstance1(ex, st, v, n, node):
+    if n == "Series":
+        from . import pdlib
+        return pdlib.is_series(ex, v)
     if n == "dict":
         return isinstance(v, (PyDict, ty.MapV))
     if n == "str":
@@ -1042,7 +1118,11 @@ def _anyall(ex, st, args, node, is_any):
         v = v.seq
     if isinstance(v, ty.SeqV) and v.elem is ty.Bool:
         i = z3.Int(ty.fresh_name("qi"))
-        body = z3.Select(v.arrs[0], i)
+        body = z3.simplify(ty.sel(v.arrs[0], i))
+        if z3.is_false(body):            # the same constant for every element: no quantifier needed
+            return _out(False if is_any else v.len <= 0, st)
+        if z3.is_true(body):
+            return _out(v.len > 0 if is_any else True, st)
         rng = z3.And(i >= 0, i < v.len)
         return _out(z3.Exists([i], z3.And(rng, body)) if is_any else ty.FA([i], z3.Implies(rng, body)), st)
     raise _U("any/all of symbolic", node)
@@ -1191,6 +1271,23 @@ def sv_tolist(ex, st, recv, args, kwargs, node):
     return _out(ty.SeqV(recv.elem, recv.arrs, recv.len), st)
 
 
+def sv_index(ex, st, recv, args, kwargs, node):
+    """list.index(x): the first position holding x; ValueError when absent"""
+    xs = ty.pack(recv.elem, ex.coerce(recv.elem, args[0], node))
+    res = []
+    for taken, s2 in ex.branch(st, seq_contains(ex, st, recv, args[0], node), f"present@L{getattr(node, 'lineno', 0)}"):
+        if not taken:
+            res.append(_raise("ValueError", s2, node))
+            continue
+        p = z3.Int(ty.fresh_name("idx"))
+        j = z3.Int(ty.fresh_name("j"))
+        same = lambda i: z3.And(*[ty.sel(a, i) == c for a, c in zip(recv.arrs, xs)])
+        s2.assume(z3.And(p >= 0, p < recv.len, same(p)))
+        s2.assume(ty.FA([j], z3.Implies(z3.And(j >= 0, j < p), z3.Not(same(j)))))
+        res.extend(_out(p, s2))
+    return res
+
+
 def sv_append(ex, st, recv, args, kwargs, node):
     raise _U("append on a symbolic sequence must go through a name (handled in expr_Call)", node)
 
@@ -1207,7 +1304,7 @@ VALUE_METHODS = {
     "PyList": dict(append=pl_append, extend=pl_extend, copy=pl_copy, index=pl_index, sort=pl_sort, pop=pl_pop),
     "PySet": dict(add=ps_add, pop=ps_pop),
     "PyDict": dict(get=pd_get, keys=pd_keys, values=pd_values, items=pd_items),
-    "SeqV": dict(copy=sv_copy, tolist=sv_tolist),
+    "SeqV": dict(copy=sv_copy, tolist=sv_tolist, index=sv_index),
 }
 
 
@@ -1385,6 +1482,12 @@ MODULE_FUNCS = {
     "copy.copy": m_copy,
     "math.ceil": m_math_ceil,
     "random.choice": m_random_choice,
+    "pandas.DataFrame": lambda ex, st, a, k, n: __import__("pyvc.pdlib", fromlist=["x"]).dataframe(ex, st, a, k, n),
+    "pandas.concat": lambda ex, st, a, k, n: __import__("pyvc.pdlib", fromlist=["x"]).concat(ex, st, a, k, n),
+    "numpy.append": lambda ex, st, a, k, n: __import__("pyvc.nplib", fromlist=["x"]).np_append(ex, st, a, k, n),
+    "numpy.delete": lambda ex, st, a, k, n: __import__("pyvc.nplib", fromlist=["x"]).np_delete(ex, st, a, k, n),
+    "datetime.timedelta": lambda ex, st, a, k, n: __import__("pyvc.timelib", fromlist=["x"]).m_timedelta(ex, st, a, k, n),
+    "decimal.Decimal": lambda ex, st, a, k, n: __import__("pyvc.timelib", fromlist=["x"]).m_decimal(ex, st, a, k, n),
     "numpy.deg2rad": lambda ex, st, a, k, n: __import__("pyvc.cplx", fromlist=["x"]).np_deg2rad(ex, st, a, k, n),
     "numpy.cos": lambda ex, st, a, k, n: __import__("pyvc.cplx", fromlist=["x"]).np_cos(ex, st, a, k, n),
     "numpy.sin": lambda ex, st, a, k, n: __import__("pyvc.cplx", fromlist=["x"]).np_sin(ex, st, a, k, n),
